@@ -98,10 +98,10 @@ def childFragmentSpec (ctx : ImplContext) (named : Bool) (cp : ChildPath) (d : N
   let init ← wrapInit ctx cd.typeHint named (lines ++ g ++ updateToks ctx)
   let nr ← ctx.input.namedFields
   match nr, hint with
-  | true, .struct | true, .unspecified => return childName ++ [colon] ++ cd.ty ++ init ++ [comma]
-  | true, .tuple => return cd.ty ++ init ++ [comma]
-  | false, .tuple | false, .unspecified => return cd.ty ++ init ++ [comma]
-  | false, .struct => return childName ++ [colon] ++ cd.ty ++ init ++ [comma]
+  | true, .struct | true, .unspecified => return childName ++ [colon] ++ exprPath cd.ty ++ init ++ [comma]
+  | true, .tuple => return exprPath cd.ty ++ init ++ [comma]
+  | false, .tuple | false, .unspecified => return exprPath cd.ty ++ init ++ [comma]
+  | false, .struct => return childName ++ [colon] ++ exprPath cd.ty ++ init ++ [comma]
   | _, .unit => panicAt "expand.rs:render_child:unreachable(15)"
 
 /-- `render_child` over a run of members sitting exactly at that child: one construction, all and only those members,
